@@ -315,6 +315,10 @@ func (s *SMF) WriteTo(f io.Writer) (size int64, err error) {
 		}
 	}
 
+	if err != nil {
+		return wr.output.size, err
+	}
+
 	return wr.output.size, nil
 }
 
